@@ -136,7 +136,7 @@ func c06MBT(d *vCtx) error {
 					last := c06LastTrig(st)
 					if o.Mode != c06Str(w, "mode") || c.verRev[o.Ver] != c06Str(w, "ver") || o.Port != c06Int(w, "port", 0) {
 						bad("fields")
-					} else if last != nil && (last.Shape == "none" || last.Shape == "short") {
+					} else if last != nil && (last.Shape == "none" || last.Shape == "short" || last.Shape == "p11") {
 						if o.Ts != last.Ts || o.Sfx != "" {
 							bad("id")
 						}
